@@ -46,6 +46,7 @@ var genFiles = []genFile{
 	{Name: "SelectorParse"},
 	{Name: "Secretbox", Prelude: secretboxPrelude},
 	{Name: "ParseTime", Imports: []string{"Facts"}},
+	{Name: "ParseDid", Prelude: "variable (ext_didParse : Bytes → GoM D) (ext_undef : D)\n"},
 	{Name: "ChainTypes", Structs: []string{"delegation.Token", "invocation.Token"}},
 	{Name: "Did", Structs: []string{"did.DID"}, Prelude: didPrelude},
 	{Name: "Envelope", ModelImports: []string{"NodeApi"}, Structs: []string{"envelope.Info"}},
@@ -94,6 +95,7 @@ var targets = []target{
 		Uses: []string{"ext_open"}},
 	{Dir: "did", Name: "Parse", Lean: "did_Parse", File: "Did", Uses: []string{"ext_mbDecode", "ext_fromUvarint"}, Concrete: []string{"did.DID"}},
 	{Dir: "token/internal/parse", Name: "OptionalTimestamp", Lean: "OptionalTimestamp", File: "ParseTime"},
+	{Dir: "token/internal/parse", Name: "OptionalDID", Lean: "OptionalDID", File: "ParseDid", Uses: []string{"ext_didParse", "ext_undef"}},
 	{Dir: "token/internal/envelope", Name: "FindTag", Lean: "FindTag", File: "Envelope", MapIterators: true, Concrete: []string{"datamodel.Node"}},
 	{Dir: "token/internal/envelope", Name: "Inspect", Lean: "Inspect", File: "Envelope", StructLocal: "res", StructLocalZero: true, MapIterators: true,
 		Concrete: []string{"datamodel.Node"}},
@@ -381,6 +383,7 @@ var useTypes = map[string]string{
 	"ext_invValidate":      "InvDec D C A M → GoM Unit",
 	"ext_argsValidate":     "A → GoM Unit",
 	"ext_fromUvarint":      "Bytes → GoM (Int × Int)",
+	"ext_undef":            "D",
 	"ext_self":             "Node → GoM Unit", // limits.ValidateIntegerBoundsIPLD calling itself (open recursion)
 }
 
@@ -440,6 +443,7 @@ var constTable = map[string]constDef{
 	"multicodec.P384Pub":      {"(4609 : Int)", intTy},
 	"multicodec.P521Pub":      {"(4610 : Int)", intTy},
 	"multicodec.RsaPub":       {"(4613 : Int)", intTy},
+	"did.Undef":               {"ext_undef", ty{"D", "did.DID"}}, // the zero DID: a parameter wherever DID is the opaque D
 	"datamodel.Kind_Int":      {"Kind.int", ty{"Kind", "datamodel.Kind"}},
 	"datamodel.Kind_Float":    {"Kind.float", ty{"Kind", "datamodel.Kind"}},
 	"datamodel.Kind_String":   {"Kind.str", ty{"Kind", "datamodel.Kind"}},
